@@ -4,6 +4,7 @@ import MitumModel.Model.ExpelPool
 import MitumModel.Model.BallotPool
 import MitumModel.Model.ProposalMaker
 import MitumModel.Gen.C23
+import MitumModel.Gen.C38
 namespace Mitum.Driver
 open Mitum
 
@@ -124,26 +125,38 @@ open Mitum
 def stepC38 (ts : List String) : String :=
   match ts with
   | "seq" :: ops =>
-    let step := fun (acc : ProposalMaker.State × Nat × List String) (t : String) =>
+    -- proposal ids are shown in the order of their first appearance (a failed make takes an id nobody ever sees)
+    let shw (seen : List Nat) (p : Nat) : List Nat × String :=
+      match seen.idxOf? p with
+      | some i => (seen, toString (i + 1))
+      | none => (seen ++ [p], toString (seen.length + 1))
+    let step := fun (acc : ProposalMaker.State × Nat × List String × List Nat) (t : String) =>
+      let (st, nf, outs, seen) := acc
       match t.splitOn ":" with
-      | ["o"] => (acc.1, acc.2.1, acc.2.2 ++ ["-"])
+      | ["o"] => (st, nf, outs ++ ["-"], seen)
       | ["c", d] =>
         match d.toNat? with
-        | some d => ({ acc.1 with pool := BallotPool.cleanProposals acc.1.pool d }, acc.2.1, acc.2.2 ++ ["-"])
-        | none => (acc.1, acc.2.1, acc.2.2 ++ ["bad-op"])
+        | some d => ({ st with pool := BallotPool.cleanProposals st.pool d }, nf, outs ++ ["-"], seen)
+        | none => (st, nf, outs ++ ["bad-op"], seen)
       | [k, tr] =>
+        let failing := tr.endsWith "!"
+        let tr := if failing then tr.dropRight 1 else tr
         match parseNats tr "." with
         | some [h, r, pr, pv] =>
           let trip : BallotPool.Triple := { h := h, r := r, proposer := pr, prev := pv }
           if k = "f" then
-            let r := ProposalMaker.step acc.1 (.foreign (1000000 + acc.2.1) trip (1000000 + acc.2.1))
-            (r.1, acc.2.1 + 1, acc.2.2 ++ ["-"])
+            let r := ProposalMaker.step st (.foreign (1000000 + nf) trip (1000000 + nf))
+            (r.1, nf + 1, outs ++ ["-"], seen)
           else
-            let r := ProposalMaker.make acc.1 trip []
-            (r.1, acc.2.1, acc.2.2 ++ [toString r.2])
-        | _ => (acc.1, acc.2.1, acc.2.2 ++ ["bad-op"])
-      | _ => (acc.1, acc.2.1, acc.2.2 ++ ["bad-op"])
-    joinSp (ops.foldl step (ProposalMaker.init, 0, [])).2.2
+            let code := Gen.C38.makeReturnsSetProposalError
+            let r := if failing then (if code then ProposalMaker.step st (.makeFail trip []) else ProposalMaker.stepLoose st (.makeFail trip []))
+                     else ProposalMaker.step st (.make trip [])
+            match r.2 with
+            | some p => let x := shw seen p; (r.1, nf, outs ++ [x.2], x.1)
+            | none => (r.1, nf, outs ++ ["err"], seen)
+        | _ => (st, nf, outs ++ ["bad-op"], seen)
+      | _ => (st, nf, outs ++ ["bad-op"], seen)
+    joinSp (ops.foldl step (ProposalMaker.init, 0, [], [])).2.2.1
   | _ => "bad-op"
 
 end Mitum.Driver
